@@ -446,6 +446,26 @@ def generate(api):
                 "".join("Definition cm_saturate_%s (m : list f32) (r g b a : f32) : f32 :=\n  %s.\n" % (n, r[n]) for n in 'rgb'))
     section('cm_saturate', cm_saturate)
 
+    def cm_hue():
+        t = arm('HueRotate', 'LuminanceToAlpha')
+        if not (re.search(r"let\s+angle\s*=\s*angle\.to_radians\(\)\s*;", t) and re.search(r"let\s+a1\s*=\s*angle\.cos\(\)\s*;", t)
+                and re.search(r"let\s+a2\s*=\s*angle\.sin\(\)\s*;", t)):
+            raise Bad("HueRotate arm: a1 = cos(angle in radians), a2 = sin(..) changed")
+        m = re.search(r"let\s+m\s*=\s*\[(.*?)\]\s*;", t, re.S)
+        if not m:
+            raise Bad("HueRotate arm: coefficient array not found")
+        coefs = [c.strip() for c in m.group(1).split(',') if c.strip()]
+        if len(coefs) != 9:
+            raise Bad("HueRotate arm: %d coefficients" % len(coefs))
+        cs = [fx(c, {'a1': ('a1', 'f32'), 'a2': ('a2', 'f32')}) for c in coefs]
+        if not re.search(r"let\s*\(\s*r\s*,\s*g\s*,\s*b\s*,\s*_\s*\)\s*=\s*to_normalized_components\(\*pixel\)", t):
+            raise Bad("HueRotate arm: channel binding changed")
+        r = rows(t, 'rgb', {'m': 'm'}, 'HueRotate arm')
+        return ("(* color_matrix.rs :: apply, ColorMatrix::HueRotate; a1 = cos, a2 = sin of the angle in radians (libm, not modelled) *)\n"
+                "Definition cm_hue_coefs (a1 a2 : f32) : list f32 := [\n  %s\n].\n" % ";\n  ".join(cs) +
+                "".join("Definition cm_hue_%s (m : list f32) (r g b a : f32) : f32 :=\n  %s.\n" % (n, r[n]) for n in 'rgb'))
+    section('cm_hue', cm_hue)
+
     def cm_lum():
         t = arm('LuminanceToAlpha', None)
         m = re.search(r"let\s+new_a\s*=\s*([^;]*);", t)
